@@ -1,5 +1,7 @@
 """Obligation name (regex) -> replay driver script (run natively on /repo with /venv/bin/python)."""
 DRIVERS = [
+    (r"TracepointConfigService\.(add_custom|remove_custom)/", "c13_handles.py"),
+    (r"TaskHandler\.flush/", "c09_flush.py"),
     (r"config/__init__\.py:IN_APP_|LongPoll\.start/PRE", "c19_env_config.py"),
     (r"SnapshotActionContext\._process_action/LOG/snapshot-starts", "c06_independent_snapshots.py"),
     (r"(variable_processor\.py|variable_set_processor\.py):.*/SIG/", "c06_total_collection.py"),
